@@ -5,6 +5,7 @@ Core: the LAS data structure (`Model/TokenRing.lean`) under witnessed token pass
 The timed N-station composition is not proved (DESIGN 5.5).
 -/
 import ProfiVerif.Lemmas.TokenRing
+import ProfiVerif.Lemmas.Neighbours
 
 namespace PV.C02
 open PV PV.TokenRing
@@ -118,11 +119,145 @@ theorem verification_restarts (r : TokenRing) (sa da : Nat) (hsa : sa ≤ 125) (
 theorem claim_valid (r : TokenRing) : r.claimToken.las = .valid ∧ ∀ a, r.claimToken.isActive a = r.isActive a := by
   simp [claimToken, isActive]
 
+
+/-! ## `neighbours`: NS / PS are the cyclic neighbours of TS in the LAS
+
+Specification (`Lemmas/Neighbours.lean`, independent of the model): `cycSucc ts L` = the smallest
+element of `L` above `ts`, else the smallest element of `L`, else `ts`; `cycPred` symmetrically —
+defined by `filter`/`min?`/`max?` on an arbitrary list, shown to depend on the *set* only
+(`cycSucc_congr`), to be insensitive to whether TS itself is listed (`cycSucc_cons_self`: neighbours in
+`S` = neighbours in `S ∪ {TS}`), and to be `S[(i±1) mod |S|]` for `ts = S[i]` in an ascending list.
+
+When are NS/PS recomputed in `token_ring.rs`?  `update_next_previous` runs at the end of
+`update_las_from_token_pass` (hence in `witness_token_pass` in Discovery, in Valid and on a failed
+verification, and in `set_next_station`) and of `remove_station`.  These are exactly the places where
+a LAS bit is written; the remaining paths (`new`, ignored passes, the phase changes of
+Uninitialized/Verification, `claim_token`) write neither the LAS nor NS/PS.  So NS/PS are **never
+stale relative to the LAS**: `Nbr` below is an invariant of every reachable state, not only of the
+states right after a recomputation.  What NS/PS can be is "stale relative to the bus": the LAS
+itself lags (a destination is entered only when it passes the token on, TS's own bit is cleared by
+a pass that skips TS), and the theorems say exactly "neighbours in the *current LAS*". -/
+
+/-- `update_next_previous` establishes the neighbour relation from **any** state (whatever NS/PS
+were), and so do the three operations that end in it. -/
+theorem neighbours_recomputed (r : TokenRing) :
+    Nbr (updateNextPrev r) ∧ (∀ sa da, Nbr (r.updateLas sa da)) ∧
+    (∀ a r', r.setNextStation a = some r' → Nbr r') ∧ (∀ a r', r.removeStation a = some r' → Nbr r') :=
+  ⟨updateNextPrev_nbr r, updateLas_nbr r, fun a r' => setNextStation_nbr r r' a,
+   fun a r' => removeStation_nbr r r' a⟩
+
+/-- Every public operation preserves it (in every LAS phase, including the passes that are ignored
+or only change the phase), and `new` establishes it. -/
+theorem neighbours_preserved (r : TokenRing) (h : Nbr r) :
+    (∀ sa da, Nbr (r.witness sa da)) ∧ Nbr r.claimToken ∧ (∀ ts, Nbr (TokenRing.new ts)) :=
+  ⟨fun sa da => witness_nbr r sa da h, claimToken_nbr r h, new_nbr⟩
+
+/-- **`neighbours`**: after *any* sequence of `witness_token_pass` / `claim_token` /
+`set_next_station` / `remove_station` calls on a fresh `TokenRing` of any own address (that did not
+panic), `next_station` is the cyclic successor and `previous_station` the cyclic predecessor of TS
+among the addresses currently in the LAS. -/
+theorem neighbours (ts : Nat) (ops : List Op) (r : TokenRing) (h : runOps (TokenRing.new ts) ops = some r) :
+    r.ts = ts ∧ r.ns = cycSucc ts r.activeList ∧ r.ps = cycPred ts r.activeList := by
+  have := runOps_nbr ops (TokenRing.new ts) r (new_nbr ts) h
+  have e : r.ts = ts := this.2
+  exact ⟨e, e ▸ this.1.1, e ▸ this.1.2⟩
+
+/-- The same, spelled out against LAS membership only (no list, no `min?`): if some active address
+lies above TS, NS is the least such; otherwise NS is the least active address; NS = TS if the LAS is
+empty.  Symmetrically for PS. -/
+theorem neighbours_char (r : TokenRing) (h : Nbr r) :
+    ((∃ a, r.isActive a = true ∧ r.ts < a) →
+        r.isActive r.ns = true ∧ r.ts < r.ns ∧ ∀ a, r.isActive a = true → r.ts < a → r.ns ≤ a) ∧
+    ((∀ a, r.isActive a = true → a ≤ r.ts) → (∃ a, r.isActive a = true) →
+        r.isActive r.ns = true ∧ ∀ a, r.isActive a = true → r.ns ≤ a) ∧
+    ((∀ a, r.isActive a = false) → r.ns = r.ts ∧ r.ps = r.ts) ∧
+    ((∃ a, r.isActive a = true ∧ a < r.ts) →
+        r.isActive r.ps = true ∧ r.ps < r.ts ∧ ∀ a, r.isActive a = true → a < r.ts → a ≤ r.ps) ∧
+    ((∀ a, r.isActive a = true → r.ts ≤ a) → (∃ a, r.isActive a = true) →
+        r.isActive r.ps = true ∧ ∀ a, r.isActive a = true → a ≤ r.ps) := by
+  have hs : IsCycSucc r.ts r.activeList r.ns := (isCycSucc_iff _ _ _).mpr h.1
+  have hp : IsCycPred r.ts r.activeList r.ps := (isCycPred_iff _ _ _).mpr h.2
+  have m := mem_activeList r
+  refine ⟨fun ⟨a, ha, hlt⟩ => ?_, fun hall ⟨a, ha⟩ => ?_, fun hno => ?_, fun ⟨a, ha, hlt⟩ => ?_, fun hall ⟨a, ha⟩ => ?_⟩
+  · have := hs.above ⟨a, (m a).mpr ha, hlt⟩
+    exact ⟨(m _).mp this.1, this.2.1, fun b hb => this.2.2 b ((m b).mpr hb)⟩
+  · have := hs.wrap (fun b hb => hall b ((m b).mp hb)) ⟨a, (m a).mpr ha⟩
+    exact ⟨(m _).mp this.1, fun b hb => this.2 b ((m b).mpr hb)⟩
+  · have hno' : ∀ a, a ∉ r.activeList := fun a ha => by
+      have := (m a).mp ha; rw [hno a] at this; cases this
+    exact ⟨hs.alone hno', hp.alone hno'⟩
+  · have := hp.below ⟨a, (m a).mpr ha, hlt⟩
+    exact ⟨(m _).mp this.1, this.2.1, fun b hb => this.2.2 b ((m b).mpr hb)⟩
+  · have := hp.wrap (fun b hb => hall b ((m b).mp hb)) ⟨a, (m a).mpr ha⟩
+    exact ⟨(m _).mp this.1, fun b hb => this.2 b ((m b).mpr hb)⟩
+
+/-- With LAS = ring `S`: NS/PS are the cyclic neighbours of TS in `S` (equivalently in `S ∪ {TS}`,
+`cycSucc_cons_self`); if TS is the `i`-th member of `S` they are the members `i+1` and `i-1` (mod |S|). -/
+theorem neighbours_ring (r : TokenRing) (S : List Nat) (hS : Ring S) (h : Nbr r) (hl : LasIs r S) :
+    r.ns = cycSucc r.ts S ∧ r.ps = cycPred r.ts S ∧
+    r.ns = cycSucc r.ts (r.ts :: S) ∧ r.ps = cycPred r.ts (r.ts :: S) ∧
+    ∀ i (hi : i < S.length), S[i] = r.ts →
+      r.ns = S[(i + 1) % S.length]'(Nat.mod_lt _ (by omega)) ∧
+      r.ps = S[(i + S.length - 1) % S.length]'(Nat.mod_lt _ (by omega)) := by
+  have hn := nbr_lasIs r S h hl hS.bound
+  refine ⟨hn.1, hn.2, by rw [cycSucc_cons_self]; exact hn.1, by rw [cycPred_cons_self]; exact hn.2, ?_⟩
+  intro i hi e
+  rw [hn.1, hn.2, ← e]
+  exact ⟨cycSucc_index S hS.asc i hi, cycPred_index S hS.asc i hi⟩
+
+/-- **`neighbours` after learning** (corollary of `las_learns`): a fresh station of *any* own address
+that has seen the wrap-around and two rotations of *any* ring `S` has NS/PS = its cyclic
+successor/predecessor in `S`; for a member `ts = S[i]` these are `S[i+1 mod |S|]` / `S[i-1 mod |S|]`. -/
+theorem neighbours_learned (ts : Nat) (S : List Nat) (hS : Ring S) (sa da : Nat) (hsa : sa ≤ 125) (hda : da ≤ 125)
+    (hwrap : da ≤ sa) :
+    let r3 := witnessAll (witnessAll ((TokenRing.new ts).witness sa da) (rotation S)) (rotation S)
+    r3.ns = cycSucc ts S ∧ r3.ps = cycPred ts S ∧
+    ∀ i (hi : i < S.length), S[i] = ts →
+      r3.ns = S[(i + 1) % S.length]'(Nat.mod_lt _ (by omega)) ∧
+      r3.ps = S[(i + S.length - 1) % S.length]'(Nat.mod_lt _ (by omega)) := by
+  intro r3
+  have hl := (las_learns ts S hS sa da hsa hda hwrap).2
+  have hnb : Nbr r3 := witnessAll_nbr _ _ (witnessAll_nbr _ _ (witness_nbr _ sa da (new_nbr ts)))
+  have hts : r3.ts = ts := by
+    have key : ∀ (ps : List (Nat × Nat)) (r : TokenRing), (witnessAll r ps).ts = r.ts := by
+      intro ps
+      induction ps with
+      | nil => intro r; rfl
+      | cons p t ih => intro r; exact (ih _).trans (witness_ts r p.1 p.2)
+    show (witnessAll _ _).ts = ts
+    rw [key, key, witness_ts]; rfl
+  have := neighbours_ring r3 S hS hnb hl
+  rw [hts] at this
+  exact ⟨this.1, this.2.1, this.2.2.2.2⟩
+
+/-- **`neighbours` after a change** (corollary of `las_tracks` / `las_stable`): a station with a valid
+LAS (in any reachable state) that witnesses one full rotation of the — possibly changed — ring `S'`
+has NS/PS = its cyclic neighbours in `S'`. -/
+theorem neighbours_tracked (r : TokenRing) (S' : List Nat) (hS : Ring S') (hn : Nbr r) (hv : r.las = .valid) :
+    let r' := witnessAll r (rotation S')
+    r'.ns = cycSucc r'.ts S' ∧ r'.ps = cycPred r'.ts S' ∧
+    ∀ i (hi : i < S'.length), S'[i] = r'.ts →
+      r'.ns = S'[(i + 1) % S'.length]'(Nat.mod_lt _ (by omega)) ∧
+      r'.ps = S'[(i + S'.length - 1) % S'.length]'(Nat.mod_lt _ (by omega)) := by
+  intro r'
+  have hl := (las_tracks r S' hS hv).1
+  have := neighbours_ring r' S' hS (witnessAll_nbr _ _ hn) hl
+  exact ⟨this.1, this.2.1, this.2.2.2.2⟩
+
 /-! Non-vacuity: the two-station ring {3, 9} seen by station 7, and a one-station ring. -/
 example : Ring [3, 9] := ⟨by simp, by simp [Asc], by simp⟩
 example : Ring [0] := ⟨by simp, by simp [Asc], by simp⟩
 example : rotation [3, 9, 20] = [(3, 9), (9, 20), (20, 3)] := rfl
 example : (witnessAll (witnessAll ((TokenRing.new 7).witness 9 3) (rotation [3, 9])) (rotation [3, 9])).activeList = [3, 9] := by
+  decide +kernel
+
+/-! Non-vacuity of `neighbours`: station 7 between 3 and 9; station 9 (last member) wraps to 3;
+a lone station; an address that is not a member. -/
+example : cycSucc 7 [3, 9, 20] = 9 ∧ cycPred 7 [3, 9, 20] = 3 := by decide
+example : cycSucc 20 [3, 9, 20] = 3 ∧ cycPred 3 [3, 9, 20] = 20 := by decide
+example : cycSucc 5 [5] = 5 ∧ cycPred 5 [] = 5 := by decide
+example : cycSucc 7 [20, 3, 9, 3] = 9 := by decide     -- order and repetitions are irrelevant
+example : runOps (TokenRing.new 7) [.witness 9 3, .witness 3 9, .witness 9 3, .claim, .remove 3] ≠ none := by
   decide +kernel
 
 end PV.C02
